@@ -45,6 +45,9 @@ func absDecDigitsRaw(digits int64, precision uint32) string {
 var identityModule = map[string]string{"kind": "vsim", "kind-a": "vsim", "kind-b": "vsim", "kind-x": "vsim-ext"}
 var prefixToModule = map[string]string{"vs": "vsim", "vx": "vsim-ext", "vsim": "vsim", "vsim-ext": "vsim-ext"}
 
+// IdentityModuleOf returns the module that defines the identity (vsim schema), "" if unknown.
+func IdentityModuleOf(name string) string { return identityModule[name] }
+
 func absIdentity(s string) string {
 	name := s
 	mod := ""
